@@ -61,8 +61,9 @@ PROPS = {
     ),
     "C07": dict(
         level="exploration", labels=LOOP_LABELS,
-        campaigns=[("loop", ["profile=life"], 100000, 2000000), ("loop", ["profile=life", "big=1"], 30000, 600000), ("loop", ["profile=all"], 20000, 400000)],
-        rule="cases = all-kind loop programs with iv_quit anywhere (including before iv_main), failing iv_fd_register_try (closed descriptor / regular file) and failing iv_event_register (descriptor creation EMFILE), budget-driven unregister-everything from any callback, second iv_main round; model = set of registered objects + quit flag; oracles at every wait entry (must not wait when model says return), at return (must not return early), callbacks only inside iv_main and never nested, nothing due at a blocking point, no spin; non-trivial = case with a quit, a failed registration, or zero objects reached from inside a callback; distinct = executed action sequence hash",
+        campaigns=[("loop", ["profile=life"], 100000, 2000000), ("loop", ["profile=life", "big=1"], 30000, 600000), ("loop", ["profile=all"], 20000, 400000),
+                   ("loop", ["profile=task", "marathon=300"], 400, 8000)],
+        rule="cases = (marathon campaign: a task that re-registers itself 300 times beside a readable descriptor - the loop must get back to the kernel between its runs, three runs in a row without a poll is a loop spinning in its task phase;) all-kind loop programs with iv_quit anywhere (including before iv_main), failing iv_fd_register_try (closed descriptor / regular file) and failing iv_event_register (descriptor creation EMFILE), budget-driven unregister-everything from any callback, second iv_main round; model = set of registered objects + quit flag; oracles at every wait entry (must not wait when model says return), at return (must not return early), callbacks only inside iv_main and never nested, nothing due at a blocking point, no spin; non-trivial = case with a quit, a failed registration, or zero objects reached from inside a callback; distinct = executed action sequence hash",
         assumptions=[],
     ),
 }
@@ -90,11 +91,11 @@ PROPS["C16"] = dict(
 )
 TIMERS_LABELS = ["cross_128_up", "cross_128_down", "cross_16384_up", "cross_16384_down", "interior_removal", "remove_earliest", "remove_last_registered",
                  "equal_keys", "unregister_of_timer_in_expired_batch", "bulk_register", "bulk_unregister", "register_from_handler", "past_expiry",
-                 "empty_then_refill", "method_epoll_timerfd", "method_epoll", "method_ppoll", "method_poll", "far_future", "extreme_expiry_value"]
+                 "empty_then_refill", "method_epoll_timerfd", "method_epoll", "method_ppoll", "method_poll", "far_future", "extreme_expiry_value", "same_struct_reregistered_without_init"]
 PROPS["C05"] = dict(
     level="exploration", labels=TIMERS_LABELS, engine="timers",
-    campaigns=[("timers", [], 40000, 800000), ("timers", ["large=1"], 2500, 50000)],
-    rule="cases = histories of iv_timer_register / iv_timer_unregister / bulk register (ascending, descending, all-equal, scattered, few distinct keys) / bulk unregister (newest, oldest, always-the-earliest, scattered interior) / burn, executed at setup and from timer handlers, populations steered across 127/128/129 and (large profile) 16383/16384/16385 in both directions, expiries incl. past, equal, far-future and extreme values, 4 poll methods, virtual clock; reference model = binary heap with lazy deletion + per-timer record; oracles: order rule at every handler entry, never early, a timer is due at <= 1 wait entry before it fires (independence: depends only on its own expiry), blocking deadline <= earliest model expiry, earliest timer not left due over two waits, iv_fatal/sanitizer = violation; non-trivial = case with >=1 removal of a timer that is neither the earliest nor the last registered while >=3 are registered AND a population boundary crossing; distinct = hash of the executed operation sequence",
+    campaigns=[("timers", [], 40000, 800000), ("timers", ["large=1"], 2500, 50000), ("loop", ["profile=timer"], 30000, 600000)],
+    rule="cases = (loop campaign: small timer populations beside a descriptor that keeps waking the loop, so that the kernel-timer path of the epoll-timerfd method is armed for one timer's expiry when another, earlier one is registered - a timer that cannot fire before the kernel timer armed for a later one is a violation, as is the order rule at every handler entry;) histories of iv_timer_register / iv_timer_unregister / bulk register (ascending, descending, all-equal, scattered, few distinct keys) / bulk unregister (newest, oldest, always-the-earliest, scattered interior) / burn, executed at setup and from timer handlers, populations steered across 127/128/129 and (large profile) 16383/16384/16385 in both directions, expiries incl. past, equal, far-future and extreme values, 4 poll methods, virtual clock; reference model = binary heap with lazy deletion + per-timer record; oracles: order rule at every handler entry, never early, a timer is due at <= 1 wait entry before it fires (independence: depends only on its own expiry), blocking deadline <= earliest model expiry, earliest timer not left due over two waits, iv_fatal/sanitizer = violation; non-trivial = case with >=1 removal of a timer that is neither the earliest nor the last registered while >=3 are registered AND a population boundary crossing; distinct = hash of the executed operation sequence",
     assumptions=["virtual clock as in C04", "every timer struct individually malloc'ed and freed at unregister / after firing (ASan)"],
     level_text="exploration of generated timer histories at populations from 0 to >33000 against a reference multiset model under a virtual clock; every handler entry and every blocking point is checked",
     level_note="trusted: the reference heap and per-timer bookkeeping in harness/t_timers.c, the virtual kernel layer, ASan/UBSan. No violation found in the explored histories is not absence.",
@@ -122,7 +123,7 @@ MT_LABELS = ["context_switch_inside_iv_event_post", "context_switch_at_owner_loc
              "worker_died_of_idle_timeout", "iv_thread_child", "iv_thread_exit_without_deinit", "iv_thread_pthread_exit", "method_epoll_timerfd",
              "method_epoll", "method_ppoll", "method_poll", "raw_event_kick_transport", "eventfd_fallback_transport", "fd_unregistered_in_event_handler",
              "pool_struct_reuse", "submit_from_completion", "virtual_time_passed_10s", "post_burst", "raw_cross_thread_post", "raw_big_burst",
-             "null_pool_work", "put_from_completion", "iv_thread_create_fails", "pool_worker_create_fails", "first_event_register_emfile"]
+             "null_pool_work", "put_from_completion", "iv_thread_create_fails", "pool_worker_create_fails", "first_event_register_emfile", "work_item_struct_resubmitted_from_its_completion", "owner_busy_with_self_reregistering_task", "owner_stalls_in_handler"]
 _MT_NOTE = ("trusted: the baton scheduler (harness/vsched.c: preemption only at interposed lock / kick / descriptor-I/O / wait / thread create-join points), "
             "the virtual kernel, the harness' history bookkeeping in harness/t_mt.c, ASan/UBSan. Races between two plain memory accesses are out of reach "
             "here (C14's TSan runs look for those). Exploration of generated schedules, not an exhaustive interleaving search.")
@@ -136,8 +137,8 @@ PROPS["C08"] = dict(
     level_note=_MT_NOTE, technique=_MT_TECH, design_ref="DESIGN.md sections 2.3 and 3 (C08)")
 PROPS["C12"] = dict(
     level="exploration", labels=MT_LABELS, engine="mt",
-    campaigns=[("mt", ["profile=work"], 40000, 800000), ("mt", ["profile=all"], 15000, 300000)],
-    rule="cases = (program bytes, schedule bytes): pool with max_threads 1-4, submissions at setup, from completions, from timers at virtual +1 ms / +0.5 s / +9.999 s / +10 s / +10.001 s / +20 s (around the 10 s idle timeout), continuations submitted from work functions, NULL-pool submissions, work functions with yield points, pool release at generated moments; oracles: per item work exactly once in a non-owner thread, completion exactly once in the owner after work returned, running work functions <= max_threads, every submitted item complete when the owner's loop ends, quiescence with incomplete items = violation; non-trivial = a submission while all started workers were busy, or after the idle timeout with a worker still alive, or before any worker ran; distinct = hash(program actions)",
+    campaigns=[("mt", ["profile=work"], 40000, 800000), ("mt", ["profile=all"], 15000, 300000), ("hyg", ["flood=66000", "cpu_limit=15", "timeout=60"], 16, 64)],
+    rule="cases = (flood campaign, free-running threads: 66000-70000 items through one pool with 2/8/501/3001 in flight, each must run once in a worker and complete once in the owner and the loop must end - more submissions than a 16-bit sequence counter holds;) (program bytes, schedule bytes): pool with max_threads 1-4, submissions at setup, from completions, from timers at virtual +1 ms / +0.5 s / +9.999 s / +10 s / +10.001 s / +20 s (around the 10 s idle timeout), continuations submitted from work functions, NULL-pool submissions, work functions with yield points, pool release at generated moments; oracles: per item work exactly once in a non-owner thread, completion exactly once in the owner after work returned, running work functions <= max_threads, every submitted item complete when the owner's loop ends, quiescence with incomplete items = violation; non-trivial = a submission while all started workers were busy, or after the idle timeout with a worker still alive, or before any worker ran; distinct = hash(program actions)",
     assumptions=["same scheduler granularity as C08"],
     level_text="exploration of generated submission programs under generated schedules and virtual time across the idle timeout",
     level_note=_MT_NOTE, technique=_MT_TECH, design_ref="DESIGN.md sections 2.3 and 3 (C12)")
@@ -159,7 +160,7 @@ SIG_LABELS = ["mixed_flags_on_one_signal", "delivery_inside_handler", "exclusive
               "raise_inside_register_or_unregister", "fork_child_raises", "receiver_without_loop_state", "handoff_to_non_exclusive", "coalesced_delivery",
               "last_unregister_restores_default", "method_epoll_timerfd", "method_epoll", "method_ppoll", "method_poll", "exclusive_candidates",
               "this_thread_shadows_process_wide", "other_threads_this_thread_interest_not_woken", "pipe_transport",
-              "out_of_range_signum_refused", "forked_child_registers_first_interest"]
+              "out_of_range_signum_refused", "forked_child_registers_first_interest", "forked_child_registers_beside_inherited_interests"]
 PROPS["C10"] = dict(
     level="exploration", labels=SIG_LABELS, engine="sig",
     campaigns=[("sig", [], 60000, 1200000)],
@@ -207,7 +208,7 @@ PROPS["C19"] = dict(
     design_ref="DESIGN.md section 3 (C19)")
 HYG_LABELS = ["thread_exit_without_deinit", "thread_with_deinit", "poll_arrays_method", "more_than_16384_timers", "pump_buffers_cached", "work_pool", "iv_event",
               "kernel_timer_created", "inotify_instance", "signal_interest", "method_epoll_timerfd", "method_epoll", "method_ppoll", "method_poll",
-              "failed_register_try", "main_thread_cycles", "pump_splice_cached", "raw_event"]
+              "failed_register_try", "main_thread_cycles", "pump_splice_cached", "raw_event", "application_iv_tls_module", "more_than_65536_submissions_to_one_pool"]
 PROPS["C18"] = dict(
     level="exploration", labels=HYG_LABELS, engine="hyg",
     campaigns=[("hyg", [], 6000, 120000), ("hyg", ["big=1"], 400, 8000), ("loop", ["profile=all"], 40000, 800000), ("mt", ["profile=all"], 10000, 200000),
@@ -228,7 +229,7 @@ PROPS["C15"] = dict(
     design_ref="DESIGN.md section 3 (C15)")
 RACE_LABELS = ["cross_thread_iv_event_post", "cross_thread_raw_post", "work_pool", "continuation_from_worker", "signal_delivered", "child_reaped", "loop_init_deinit_churn",
                "two_independent_loops", "method_epoll_timerfd", "method_epoll", "method_ppoll", "method_poll", "pipe_transport", "iv_thread", "two_posters_same_events",
-               "loops_start_before_first_event_registered", "inotify_instance_per_loop_thread"]
+               "loops_start_before_first_event_registered", "inotify_instance_per_loop_thread", "signal_interest_churn_in_several_threads"]
 PROPS["C14"] = dict(
     level="exploration", labels=RACE_LABELS, engine="race",
     campaigns=[("race", [], 2400, 60000)],
@@ -291,9 +292,14 @@ def _report(prop, r, replay_path, out_lines):
     return 1
 
 
+def _extra_params(exe):
+    # the popen target's helper program lives beside the target binary (replay files do not pin a build directory)
+    return ["helper=" + os.path.join(os.path.dirname(exe), "popen_child")] if os.path.basename(exe) == "t_popen" else []
+
+
 def confirm(exe, casefile, n=3):
     """Re-run in fresh processes; return the failing result if it reproduces in >= 2 of n runs."""
-    rs = [vlib.run_case(exe, casefile) for _ in range(n)]
+    rs = [vlib.run_case(exe, casefile, _extra_params(exe)) for _ in range(n)]
     bad = [r for r in rs if r["v"] in ("viol", "crash")]
     if len(bad) >= 2:
         tags = {}
@@ -312,7 +318,7 @@ def replay(prop, spec, path):
     exe = vlib.build(target)
     r = confirm(exe, path)
     if not r:
-        one = vlib.run_case(exe, path, verbose=True)
+        one = vlib.run_case(exe, path, _extra_params(exe), verbose=True)
         print("replay: no violation (%s %s)" % (one["v"], one["tag"]))
         return 0
     lines = []
@@ -400,7 +406,8 @@ def run_check(prop, spec, tier, seed, scale, write_evidence=True):
         tgt = params.get("target", c0["target"] if isinstance(c0, dict) else c0[0])
         if tgt not in exes:
             exes[tgt] = vlib.build(tgt)
-        r = vlib.run_case(exes[tgt], cf_, ["prop=" + prop])
+        extra = ["helper=" + os.path.join(os.path.dirname(exes[tgt]), "popen_child")] if tgt == "popen" else []
+        r = vlib.run_case(exes[tgt], cf_, ["prop=" + prop] + extra)
         ncorp += 1
         tot["evals"] += 1
         if r["v"] == "ok":
